@@ -426,7 +426,9 @@ func runC18(c *ctx, r *Report) error {
 				}
 				step := 1
 				if c.quick && n == 3 && total > 4 {
-					step = total / 4 // quick tier: 4 of the needs-list orders per 3-job graph; thorough: all
+					step = total / 4 // quick tier: 4 of the needs-list orders per 3-job graph
+				} else if n == 3 && total > 36 {
+					step = total / 36 // thorough: all orders of small needs lists, 36 spread over the product otherwise
 				}
 				for k := 0; k < total; k += step {
 					tg := make([][]int, n)
